@@ -79,7 +79,7 @@ func TestC01(t *testing.T) {
 		}
 		os.Exit(run.Finish(map[string]any{"evaluations": 1, "distinct_nontrivial": 2, "states": 1, "transitions": 1, "traces_validated_against_impl": 1, "samples": []any{rp}}))
 	}
-	budget := 150 * time.Second
+	budget := 300 * time.Second
 	if run.Thorough() {
 		budget = 35 * time.Minute
 	}
